@@ -5,7 +5,7 @@ from .base import Verdict, sig_of, crash_check
 
 ID = "C10"
 LEVEL = "exploration"
-RUNS = (3000, 150000)
+RUNS = (6000, 200000)
 RULE = ("one seeded object (parsed 5.1 file, setter history, or merge result; values biased towards mixed-case booleans, numbers in all "
         "bases, quoted and multi-line text) followed by a seeded history of 5-40 read-only calls; after EVERY call the full dump "
         "(listing, string+extended getters, tags, path, bytes written by econf_writeFile) must equal the dump taken before the first "
@@ -17,13 +17,34 @@ DEFS = {"Int": -7, "Int64": -7000000000, "UInt": 7, "UInt64": 7000000000, "Bool"
 
 
 def gen_world(rng, i, tier):
-    src = rng.pick(["parsed", "parsed", "built", "merged"])
+    src = rng.pick(["parsed", "parsed", "built", "merged", "layered"])
+    if src == "layered":
+        lw = gen.gen_layered_world(rng, i, two_layer=True, small=True, allow_refuse=False)
+        m = gen.model_of(lw)
+        if m is None or m["nofile"]:
+            src = "built"
+        else:
+            lw["read"]["ep"] = rng.pick(["readDirs", "readDirsHistory"])
+            w = {"kind": "queries", "src": "layered", "D": "=", "C": "#", "cfg": lw["cfg"], "layered": {"read": lw["read"], "nodes": lw["nodes"]},
+                 "member": rng.randrange(len(m["consulted"]))}
+            pairs = [[k[0], k[1]] for k in m["merged"].map()]
+            w["pairs"] = pairs
+            w["queries"] = gen_queries(rng, pairs, tier)
+            return w
     D = rng.pick(grammar.DSETS)
     C = rng.pick(grammar.CSETS)
     w = {"kind": "queries", "src": src, "D": D, "C": C, "cfg": gen.io_cfg(rng)}
     pairs = []
     if src in ("parsed", "merged"):
         lines, kinds, pairs = grammar.gen_conventional(rng, D, C, rng.randint(2, 25), rich=True)
+        secs = sorted(set(p[0] for p in pairs if p[0] is not None))
+        if secs and rng.chance(0.3):
+            # a header written [[name]] is stored under the literal name "[name]": brackets inside section names
+            sname = rng.pick(secs)
+            for idx, k in enumerate(kinds):
+                if k == "header" and lines[idx].strip(" \t") == "[%s]" % sname:
+                    lines[idx] = lines[idx].replace("[%s]" % sname, "[[%s]]" % sname)
+            pairs = [["[%s]" % sname if p[0] == sname else p[0], p[1]] for p in pairs]
         w["lines"] = lines
         if src == "merged":
             l2, k2, p2 = grammar.gen_conventional(rng, D, C, rng.randint(1, 12), rich=True)
@@ -40,6 +61,11 @@ def gen_world(rng, i, tier):
             if [s, k] not in pairs:
                 pairs.append([s, k])
     w["pairs"] = pairs
+    w["queries"] = gen_queries(rng, pairs, tier)
+    return w
+
+
+def gen_queries(rng, pairs, tier):
     qs = []
     for _ in range(rng.randint(5, 40) if tier != "quick" else rng.randint(5, 25)):
         r = rng.random()
@@ -68,8 +94,7 @@ def gen_world(rng, i, tier):
             qs.append(["merge_base"])
         else:
             qs.append(["merge_over"])
-    w["queries"] = qs
-    return w
+    return qs
 
 
 def q_exec(q):
@@ -101,7 +126,18 @@ def build_plans(world):
     tree = [{"t": "d", "p": "$ROOT/out"}, {"t": "f", "p": "$ROOT/other.conf", "c": "g=1\n[A]\nk1=o\nzz=2\n[New]\nn=3\n"}]
     ops = []
     D, C = world["D"], world["C"]
-    if world["src"] in ("parsed", "merged"):
+    hist_member = None
+    if world["src"] == "layered":
+        lw = world["layered"]
+        tree += gen.tree_plan(lw["nodes"])
+        ops += gen.prologue_ops(lw["read"])
+        if lw["read"]["ep"] == "readDirsHistory":
+            # the object under test is one member of the history
+            ops.append(dict(gen.read_op(lw["read"], o=0, ep="readDirsHistory"), tag="ctor"))
+            hist_member = world["member"]
+        else:
+            ops.append(dict(gen.read_op(lw["read"], o=0), tag="ctor"))
+    elif world["src"] in ("parsed", "merged"):
         tree.append({"t": "f", "p": "$ROOT/in.conf", "c": grammar.render(world["lines"])})
         ops.append({"op": "readFile", "o": 0, "path": "$ROOT/in.conf", "delim": D, "comment": C, "tag": "ctor"})
         if world["src"] == "merged":
@@ -117,6 +153,9 @@ def build_plans(world):
         for s, k, val in world["sets"]:
             ops.append({"op": "set", "k": 0, "type": "String", "group": s, "key": k, "v": val, "tag": "ctor"})
     obj = 3 if world["src"] == "merged" else 0
+    if hist_member is not None:
+        ops.append({"op": "historyMember", "h": 0, "i": hist_member, "o": 4, "tag": "ctor"})
+        obj = 4
     # the partner for merge queries
     ops.append({"op": "readFile", "o": 1, "path": "$ROOT/other.conf", "delim": "=", "comment": "#", "tag": "partner"})
 
@@ -132,7 +171,11 @@ def build_plans(world):
             e["tag"] = "q%d" % n
             ops.append(e)
         ops += snapshot("s%d" % n)
-    ops.append({"op": "free", "k": obj})
+    if hist_member is not None:
+        ops.append({"op": "historyMember", "h": 0, "release": 4})
+        ops.append({"op": "freeHistory", "h": 0})
+    else:
+        ops.append({"op": "free", "k": obj})
     ops.append({"op": "free", "k": 1})
     return [{"cfg": world["cfg"], "tree": tree, "ops": ops}]
 
@@ -179,6 +222,8 @@ def check(world, plans, results):
         v.probe("bool_getter")
     if any(q[0].startswith("merge") for q in world["queries"]):
         v.probe("used_as_merge_input")
+    if any(p[0] and p[0].startswith("[") for p in world["pairs"]):
+        v.probe("bracketed_stored_section_name")
     return v
 
 
@@ -207,4 +252,6 @@ def shrink_lists(world):
     for k in ("lines", "lines2", "sets"):
         if world.get(k):
             out.append((k,))
+    if world.get("layered"):
+        out.append(("layered", "nodes"))
     return out
